@@ -41,9 +41,10 @@ import (
 
 const (
 	c12HeaderLen   = int(unsafe.Sizeof(table.SDTHeader{}))
-	c12StackLimit  = 32 << 20
-	c12HeapLimit   = 3 << 30 // bytes of live heap objects: far beyond anything proportional to a table of a few KiB
-	c12CPUQuantum  = 8192    // CPU budget is c12CPUPerQuant for every started 8 KiB of input
+	c12StackLimit  = 32 << 20   // per started 8 KiB of input, like the CPU budget; never above Go's own default maximum
+	c12StackMax    = 1000000000 // runtime default maximum stack size on 64-bit systems
+	c12HeapLimit   = 3 << 30    // bytes of live heap objects: far beyond anything proportional to a table of a few KiB
+	c12CPUQuantum  = 8192       // CPU budget is c12CPUPerQuant for every started 8 KiB of input
 	c12CPUPerQuant = 5 * time.Second
 )
 
@@ -53,15 +54,18 @@ const (
 // 0..len(Pre)-1), B is the AML byte code (without the 36-byte SDT header) of the table under test,
 // Post names pristine shipped tables presented to the same parser afterwards, whatever the outcome.
 type c12Input struct {
-	ID   string          `json:"id"`
-	Src  string          `json:"src,omitempty"`
-	Pre  []string        `json:"pre,omitempty"`
-	Post []string        `json:"post,omitempty"`
-	Hex  string          `json:"hex,omitempty"`
-	B    []int           `json:"b,omitempty"`
-	Plan json.RawMessage `json:"plan,omitempty"`
-	Seed json.RawMessage `json:"seed,omitempty"`
-	data []byte
+	ID   string   `json:"id"`
+	Src  string   `json:"src,omitempty"`
+	Pre  []string `json:"pre,omitempty"`
+	Post []string `json:"post,omitempty"`
+	// Short > 0: the table under test is shorter than an SDT header; it consists of the first Short
+	// bytes of a header whose length field says Short (Short >= 8, the length field itself is present)
+	Short int             `json:"short,omitempty"`
+	Hex   string          `json:"hex,omitempty"`
+	B     []int           `json:"b,omitempty"`
+	Plan  json.RawMessage `json:"plan,omitempty"`
+	Seed  json.RawMessage `json:"seed,omitempty"`
+	data  []byte
 }
 
 func (in *c12Input) bytes() []byte {
@@ -141,8 +145,19 @@ func c12NewGuarded(capacity int) (*c12Guarded, error) {
 }
 
 // place copies header+aml to the end of the accessible area and returns the table's base address.
-func (g *c12Guarded) place(aml []byte, sig string) (uintptr, int) {
+// short > 0 presents only the first short bytes of the header (its length field says so).
+func (g *c12Guarded) place(aml []byte, sig string, short int) (uintptr, int) {
 	total := c12HeaderLen + len(aml)
+	if short > 0 {
+		var full [c12HeaderLen]byte
+		h := (*table.SDTHeader)(unsafe.Pointer(&full[0]))
+		copy(h.Signature[:], sig)
+		h.Length = uint32(short)
+		h.Revision = 2
+		start := len(g.mem) - short
+		copy(g.mem[start:], full[:short])
+		return uintptr(unsafe.Pointer(&g.mem[start])), short
+	}
 	start := len(g.mem) - total
 	for i := 0; i < start; i++ { // poison what lies below the table
 		g.mem[i] = 0xA5
@@ -183,6 +198,7 @@ type c12Event struct {
 	Alone int             `json:"alone"` // 1 when the outcome was reproduced with the input alone in a fresh process
 	Pre   []string        `json:"pre,omitempty"`
 	Post  []string        `json:"post,omitempty"`
+	Short int             `json:"short,omitempty"`
 	Hex   string          `json:"hex"`
 	Plan  json.RawMessage `json:"plan,omitempty"`
 	Seed  json.RawMessage `json:"seed,omitempty"`
@@ -253,6 +269,19 @@ func c12Budget(n int) time.Duration {
 
 // c12PanicText renders a recovered panic and the innermost frame of the package under test
 // (diagnostic only; call it from the deferred function that recovered).
+// c12StackBudget is the stack the parser may use for total bytes of input: proportional to the
+// input (32 MiB for every started 8 KiB), capped at what the Go runtime grants by default.
+func c12StackBudget(total int) int {
+	q := (total + c12CPUQuantum - 1) / c12CPUQuantum
+	if q < 1 {
+		q = 1
+	}
+	if q > c12StackMax/c12StackLimit {
+		return c12StackMax
+	}
+	return q * c12StackLimit
+}
+
 func c12PanicText(r interface{}) string {
 	s := fmt.Sprint(r)
 	if len(s) > 200 {
@@ -275,7 +304,7 @@ func c12PanicText(r interface{}) string {
 // (including memory faults on the guard page); fatal errors and overruns are the parent's business.
 func c12RunOne(in *c12Input, ev *c12Event) {
 	aml := in.bytes()
-	ev.K, ev.ID, ev.Src, ev.N, ev.Pre, ev.Post, ev.Plan, ev.Seed = "parse", in.ID, in.Src, len(aml), in.Pre, in.Post, in.Plan, in.Seed
+	ev.K, ev.ID, ev.Src, ev.N, ev.Pre, ev.Post, ev.Plan, ev.Seed, ev.Short = "parse", in.ID, in.Src, len(aml), in.Pre, in.Post, in.Plan, in.Seed, in.Short
 	ev.Hex = hex.EncodeToString(aml)
 	ev.PP, ev.L, ev.S, ev.TL = -1, [][6]int{}, [][]interface{}{}, []int{}
 
@@ -312,7 +341,11 @@ func c12RunOne(in *c12Input, ev *c12Event) {
 		if i == 0 {
 			sig = "DSDT"
 		}
-		base, total := g.place(tb, sig)
+		short := 0
+		if i == len(in.Pre) {
+			short = in.Short
+		}
+		base, total := g.place(tb, sig, short)
 		bases = append(bases, base)
 		ev.TL = append(ev.TL, total)
 	}
@@ -412,7 +445,7 @@ func TestVerifC12Child(t *testing.T) {
 				continue
 			}
 			ev := &c12Event{K: "parse", ID: c.in.ID, Src: c.in.Src, N: len(c.in.bytes()), TL: []int{}, PP: -1, L: [][6]int{}, S: [][]interface{}{},
-				Hex: hex.EncodeToString(c.in.bytes()), Pre: c.in.Pre, Post: c.in.Post, Plan: c.in.Plan, Seed: c.in.Seed, CPU: int(used / time.Millisecond)}
+				Hex: hex.EncodeToString(c.in.bytes()), Pre: c.in.Pre, Post: c.in.Post, Short: c.in.Short, Plan: c.in.Plan, Seed: c.in.Seed, CPU: int(used / time.Millisecond)}
 			if used > c.budget {
 				ev.Res, ev.Msg = "timeout", fmt.Sprintf("still running after %d ms CPU (budget %d ms for %d bytes)", used/time.Millisecond, c.budget/time.Millisecond, ev.N)
 			} else {
@@ -430,6 +463,7 @@ func TestVerifC12Child(t *testing.T) {
 				total += c12HeaderLen + len(b)
 			}
 		}
+		debug.SetMaxStack(c12StackBudget(total))
 		cur.Store(&c12Current{in: in, start: c12CPUNow(), budget: c12Budget(total)})
 		ev := &c12Event{}
 		c12RunOne(in, ev)
@@ -472,6 +506,9 @@ func c12WriteInputs(path string, ins []*c12Input) error {
 		}
 		if len(in.Post) > 0 {
 			rec["post"] = in.Post
+		}
+		if in.Short > 0 {
+			rec["short"] = in.Short
 		}
 		if in.Plan != nil {
 			rec["plan"] = in.Plan
@@ -582,7 +619,7 @@ func (r *c12Runner) emit(line []byte) {
 
 func (r *c12Runner) deadEvent(in *c12Input, death string, alone int) []byte {
 	ev := &c12Event{K: "parse", ID: in.ID, Src: in.Src, N: len(in.bytes()), TL: []int{}, Res: "fatal", Msg: death, PP: -1,
-		L: [][6]int{}, S: [][]interface{}{}, Alone: alone, Pre: in.Pre, Post: in.Post, Hex: hex.EncodeToString(in.bytes()), Plan: in.Plan, Seed: in.Seed}
+		L: [][6]int{}, S: [][]interface{}{}, Alone: alone, Pre: in.Pre, Post: in.Post, Short: in.Short, Hex: hex.EncodeToString(in.bytes()), Plan: in.Plan, Seed: in.Seed}
 	b, _ := json.Marshal(ev)
 	return b
 }
